@@ -288,7 +288,7 @@ func ruleOrder(c *Ctx) *RuleResult {
 						id := ad.object(c, h, AV{k: 'L', tri: 2, obj: items, elemK: 'I', prov: "items"}, choice)
 						want := ranks[ij[0]] < ranks[ij[1]]
 						n := 0
-						x.run(less, []AV{{k: 'P', tri: 2, obj: id}, {k: 'N', n: int64(ij[0]), nk: true, nn: true}, {k: 'N', n: int64(ij[1]), nk: true, nn: true}}, h, pathInfo{}, func(rets []AV, h2 *Heap, p pathInfo, fin *frame) {
+						x.run(less, ad.callArgs(x, h, id, AV{k: 'N', n: int64(ij[0]), nk: true, nn: true}, AV{k: 'N', n: int64(ij[1]), nk: true, nn: true}), h, pathInfo{}, func(rets []AV, h2 *Heap, p pathInfo, fin *frame) {
 							if len(rets) != 1 || rets[0].k != 'B' {
 								return
 							}
@@ -357,6 +357,10 @@ type lessAdapter struct {
 	fnFields []int // indices of func-typed fields
 	configs  []map[int]*ssa.Function // assignments of library functions to those fields that occur together (same block, same object)
 	opaque   bool // a function value that is not a named library function: not decided
+	// a function literal handed to sort.Slice / sort.SliceStable: the adapter's
+	// state is the literal's captured variables (latch = index of the captured
+	// failure flag)
+	closure bool
 }
 
 func (c *Ctx) lessAdapters() []*lessAdapter {
@@ -450,7 +454,70 @@ func (c *Ctx) lessAdapters() []*lessAdapter {
 		}
 		out = append(out, ad)
 	}
+	// function literals: sort.Slice / sort.SliceStable(items, func(i, j int) bool {...})
+	// capturing an expression-reference node
+	for _, fn := range allFuncs(c.SLib) {
+		for _, b := range fn.Blocks {
+			for _, in := range b.Instrs {
+				call, ok := in.(*ssa.Call)
+				if !ok {
+					continue
+				}
+				if n := calleeName(call); n != "sort.Slice" && n != "sort.SliceStable" {
+					continue
+				}
+				mc, ok := call.Call.Args[1].(*ssa.MakeClosure)
+				if !ok {
+					continue
+				}
+				cf, ok := mc.Fn.(*ssa.Function)
+				if !ok || len(cf.Params) != 2 {
+					continue
+				}
+				ad := &lessAdapter{less: cf, latch: -1, closure: true}
+				hasNode := false
+				for i, fv := range cf.FreeVars {
+					pt, ok := fv.Type().(*types.Pointer)
+					if !ok {
+						ad.opaque = true
+						continue
+					}
+					ft := pt.Elem()
+					switch {
+					case c.isASTNode(ft):
+						hasNode = true
+					case isBoolType(ft) || isErrorType(ft):
+						// the failure flag is the one the literal writes
+						for _, cb := range cf.Blocks {
+							for _, cin := range cb.Instrs {
+								if st, ok := cin.(*ssa.Store); ok && st.Addr == fv {
+									ad.latch = i
+									ad.latchErr = isErrorType(ft)
+								}
+							}
+						}
+					default:
+						if _, isSig := ft.Underlying().(*types.Signature); isSig {
+							ad.opaque = true
+						}
+					}
+				}
+				if hasNode {
+					out = append(out, ad)
+				}
+			}
+		}
+	}
 	return out
+}
+
+// callArgs: the arguments of one call Less(i, j) on the adapter built as id.
+func (ad *lessAdapter) callArgs(x *Exec, h *Heap, id int, i, j AV) []AV {
+	if ad.closure {
+		x.pendingFV = append([]AV(nil), h.objs[id].fields...)
+		return []AV{i, j}
+	}
+	return []AV{{k: 'P', tri: 2, obj: id}, i, j}
 }
 
 // variants: one per assignment of library functions to the func fields (a single nil variant when there is none).
@@ -463,6 +530,33 @@ func (ad *lessAdapter) variants() []map[int]*ssa.Function {
 
 // object builds the adapter on the heap: items is the items slice value.
 func (ad *lessAdapter) object(c *Ctx, h *Heap, items AV, choice map[int]*ssa.Function) int {
+	if ad.closure {
+		// one cell per captured variable; the object holds the pointers (as MakeClosure does)
+		o := &aobj{kind: 's'}
+		for i, fv := range ad.less.FreeVars {
+			ft := fv.Type().(*types.Pointer).Elem()
+			var v AV
+			switch {
+			case i == ad.latch && ad.latchErr:
+				v = AV{k: 'E', tri: 1}
+			case i == ad.latch:
+				v = AV{k: 'B', tri: 2}
+			case c.isASTNode(ft):
+				v = AV{k: 'O', what: "node expref-body"}
+			default:
+				if _, isSl := ft.Underlying().(*types.Slice); isSl {
+					v = items
+				} else if isBoolType(ft) {
+					v = AV{k: 'B', tri: 3}
+				} else {
+					v = AV{k: 'P', tri: 2, what: "interp"}
+				}
+			}
+			cell := h.alloc(&aobj{kind: 'c', v: v, typ: ft})
+			o.fields = append(o.fields, AV{k: 'P', tri: 2, obj: cell})
+		}
+		return h.alloc(o)
+	}
 	o := &aobj{kind: 's'}
 	for i := 0; i < ad.st.NumFields(); i++ {
 		ft := ad.st.Field(i).Type()
@@ -492,6 +586,9 @@ func (ad *lessAdapter) latched(h *Heap, id int) bool {
 		return false
 	}
 	f := h.objs[id].fields[ad.latch]
+	if ad.closure {
+		f = h.objs[f.obj].v
+	}
 	if ad.latchErr {
 		return f.k != 'E' || f.tri&2 != 0
 	}
